@@ -105,6 +105,14 @@ class Array:
         self._accessmode = check_accessmode(value, validmodes=('r', 'r+'),
                                             makebinary=False)
         self._metadata.accessmode = value
+        if self._memmap is not None:
+            # the array is open (open_array context, generator): what is
+            # done through this object from now on follows the new mode
+            self._memmap, self._valuesfd = None, None
+            self._map_array(memmapmode=self._accessmode,
+                            filemode=check_accessmode(value,
+                                                      validmodes=('r', 'r+'),
+                                                      makebinary=True))
 
     @property
     def datadir(self):
